@@ -255,7 +255,11 @@ class FaultyMemoryCache(MemoryCache):
 
 
 # ---------------------------------------------------------------- stubs
-def _body_impl(name, selector=False, mutates=()):
+class PartialBodyError(ValueError):
+    pass
+
+
+def _body_impl(name, selector=False, mutates=(), fails_if=None):
     if selector:
 
         def impl(**kw):
@@ -267,6 +271,10 @@ def _body_impl(name, selector=False, mutates=()):
 
         def impl(**kw):
             rt.call("body", name, **kw)
+            if fails_if is not None and crepr(kw.get(fails_if["arg"])) == crepr(_key(fails_if["v"])):
+                # a PARTIAL body: a pure function of its arguments that is undefined (raises) for one argument value
+                rt.call("raise", name)
+                raise PartialBodyError(f"{name} is undefined for {fails_if['arg']}={fails_if['v']!r}")
             value = rt.body_value(name, kw)
             for a in mutates:
                 # a body that works on its argument IN PLACE (sorts a list, fills in a section), as user code does
@@ -573,7 +581,7 @@ class Program:
     def _b_dataset(self, n):
         name = n["name"]
         argnames = list(n.get("args", {}))
-        fn = make_fn(name, argnames, [self.ref(n["args"][a]) for a in argnames], _body_impl(name, n.get("body") == "selector", tuple(n.get("mutates", ()))))
+        fn = make_fn(name, argnames, [self.ref(n["args"][a]) for a in argnames], _body_impl(name, n.get("body") == "selector", tuple(n.get("mutates", ())), n.get("fails_if")))
         kw = {}
         disp = n.get("dispatch")
         if disp is not None:
